@@ -121,7 +121,8 @@ theorem at_in_bounds (l : Lay) (i j a b : Nat) (hi : l.Inv) (h : atRange l i j =
   unfold atRange at h
   split at h; · cases h
   split at h; · cases h
-  rename_i h1 h2
+  split at h; · cases h
+  rename_i h1 h2 _
   have hi' : i < l.cols := Decidable.of_not_not h1
   have hj' : j < l.size := Decidable.of_not_not h2
   cases h
@@ -270,34 +271,25 @@ theorem intoBig_inv (n cols size : Nat) (be : Be) : (intoBig (allocPrep n cols s
   exact Nat.le_trans (Nat.mul_le_mul_left _ hw) h
 example : (intoBig (allocPrep 4 2 3 (wPrep .ntt120)) .ntt120) = ⟨4, 2, 3, 3, 768, 16⟩ := by decide
 
-/-- VmpPMat: the trait's `at(i,j)` is inside the buffer when the matrix has at least one row and one output
-column; `raw()` always is -/
-theorem vmp_at_in_bounds (n rows colsIn colsOut size w i j a b : Nat) (hr : 0 < rows) (hc : 0 < colsOut)
+/-- VmpPMat: every trait `at(i,j)` that returns lies inside the buffer — no hypothesis on the shape: the accessor's
+third assertion (`offset + n ≤ n·poly_count()`) bounds the range by `raw()`'s, which the allocation covers -/
+theorem vmp_at_in_bounds (n rows colsIn colsOut size w i j a b : Nat)
     (h : vmpAtRange (allocVmp n rows colsIn colsOut size w) i j = .ok (a, b)) : b ≤ (allocVmp n rows colsIn colsOut size w).len := by
   unfold vmpAtRange allocVmp at h
   simp only at h
   split at h; · cases h
   split at h; · cases h
-  rename_i h1 h2
-  have hi' : i < colsIn := Decidable.of_not_not h1
-  have hj' : j < size := Decidable.of_not_not h2
+  split at h; · cases h
+  rename_i _ _ h3
+  have hg : n * (j * colsIn + i) + n ≤ n * (rows * colsIn * size * colsOut) := Decidable.of_not_not h3
   cases h
   simp only [allocVmp]
   refine Nat.le_trans ?_ (pad64_ge _)
-  have e : n * (j * colsIn + i) * w + n * w = n * (j * colsIn + i + 1) * w := by
-    rw [show n * (j * colsIn + i + 1) = n * (j * colsIn + i) + n from Nat.mul_succ _ _, Nat.add_mul]
+  have e : n * (j * colsIn + i) * w + n * w = (n * (j * colsIn + i) + n) * w := by rw [Nat.add_mul]
   rw [e]
-  have k1 : j * colsIn + i + 1 ≤ colsIn * size := by
-    have : (j + 1) * colsIn ≤ size * colsIn := Nat.mul_le_mul_right _ (by omega)
-    rw [Nat.add_mul, Nat.one_mul] at this
-    rw [Nat.mul_comm colsIn size]; omega
-  have k2 : colsIn * size ≤ rows * colsIn * colsOut * size := by
-    calc colsIn * size = 1 * colsIn * 1 * size := by simp
-      _ ≤ rows * colsIn * colsOut * size :=
-        Nat.mul_le_mul_right _ (Nat.mul_le_mul (Nat.mul_le_mul_right _ hr) hc)
-  calc n * (j * colsIn + i + 1) * w ≤ n * (rows * colsIn * colsOut * size) * w :=
-        Nat.mul_le_mul_right _ (Nat.mul_le_mul_left _ (Nat.le_trans k1 k2))
-    _ = n * rows * colsIn * colsOut * size * w := by simp only [Nat.mul_assoc]
+  calc (n * (j * colsIn + i) + n) * w ≤ n * (rows * colsIn * size * colsOut) * w := Nat.mul_le_mul_right _ hg
+    _ = n * rows * colsIn * colsOut * size * w := by
+      simp only [Nat.mul_assoc, Nat.mul_comm size colsOut, Nat.mul_left_comm size colsOut]
 example : okVal (vmpAtRange (allocVmp 4 2 2 3 2 32) 1 1) = some (384, 512) ∧ (allocVmp 4 2 2 3 2 32).len = 3072 := by decide
 
 theorem vmp_raw_in_bounds (n rows colsIn colsOut size w : Nat) :
@@ -307,15 +299,21 @@ theorem vmp_raw_in_bounds (n rows colsIn colsOut size w : Nat) :
   simp only [Nat.mul_assoc, Nat.mul_comm size colsOut, Nat.mul_left_comm size colsOut]
 example : (vmpRawRange (allocVmp 4 2 2 3 2 32)).2 = 3072 := by decide
 
-/-- a matrix with zero rows has an empty buffer, yet the trait accessor `at(0,0)` passes both assertions:
-safe code (`ZnxView::at`) obtains a slice over bytes the object does not own (same for `MatZnx` through the trait) -/
-theorem vmp_at_zero_rows_counterexample :
-    ¬ (∀ n rows colsIn colsOut size w i j a b, okVal (vmpAtRange (allocVmp n rows colsIn colsOut size w) i j) = some (a, b) →
-        b ≤ (allocVmp n rows colsIn colsOut size w).len) := by
-  intro h
-  have := h 4 0 1 1 1 8 0 0 0 32 (by decide)
-  revert this
-  decide
+/-- the degenerate shapes are rejected: on a matrix with zero rows or zero output columns (empty buffer) every
+`at(i,j)` is the accessor's assertion failure, never a slice (repair 4e7ed9a of the finding recorded in round 2) -/
+theorem vmp_at_degenerate_rejected (n rows colsIn colsOut size w i j : Nat) (hn : 0 < n) (hz : rows = 0 ∨ colsOut = 0) :
+    okVal (vmpAtRange (allocVmp n rows colsIn colsOut size w) i j) = none := by
+  unfold vmpAtRange allocVmp
+  simp only
+  split; · rfl
+  split; · rfl
+  split; · rfl
+  rename_i _ _ h3
+  have hg := Decidable.of_not_not h3
+  have hzero : n * (rows * colsIn * size * colsOut) = 0 := by
+    rcases hz with rfl | rfl <;> simp
+  omega
+example : okVal (vmpAtRange (allocVmp 4 0 1 1 1 8) 0 0) = none ∧ okVal (vmpAtRange (allocVmp 4 2 1 0 1 8) 0 0) = none := by decide
 
 /-! ## NTT120 in-place compaction of `vec_znx_idft_apply_consume` -/
 
